@@ -119,6 +119,9 @@ pub fn specs(thorough: bool) -> Vec<(String, Vec<RuleSpec>)> {
         out.push((format!("one_{sel:?}_full"), vec![spec(n, KindSpec::Any, sel, vec![SpanSpec::FullDay], vec!["c0"])]));
     }
     out.push(("one_event".into(), vec![spec(n, KindSpec::Any, Sel::Empty, vec![SpanSpec::Event(TimeEvent::Sunrise, -30, TimeEvent::Sunset, 45)], vec![])]));
+    for (tag, ev) in [("dawn", TimeEvent::Dawn), ("sunset", TimeEvent::Sunset), ("dusk", TimeEvent::Dusk)] {
+        out.push((format!("one_eventfree_{tag}"), vec![spec(n, KindSpec::NonClosed, Sel::TuWe, vec![SpanSpec::EventFree(ev)], vec![])]));
+    }
     out.push(("one_event_wrap".into(), vec![spec(n, KindSpec::Any, Sel::TuWe, vec![SpanSpec::Event(TimeEvent::Dusk, 0, TimeEvent::Dawn, 0), SpanSpec::Free], vec![])]));
     // two rules: every operator x selector pattern pair, free spans, any kinds
     for op in OPS {
